@@ -269,6 +269,10 @@ def _signature_index(repo=None):
             tree = ast.parse(open(os.path.join(repo, rel), encoding="utf-8").read())
         except SyntaxError:
             continue
+        # a name that is also assigned as an attribute somewhere (self.body = f) may denote a stored callable, not the method
+        for n in ast.walk(tree):
+            if isinstance(n, ast.Attribute) and isinstance(n.ctx, ast.Store):
+                add(n.attr, None)
         for cls in [n for n in ast.walk(tree) if isinstance(n, ast.ClassDef)]:
             init = [f for f in cls.body if isinstance(f, ast.FunctionDef) and f.name == "__init__"]
             # a class without its own __init__ inherits one we do not resolve here: unsafe
@@ -309,10 +313,36 @@ def _keyword_last(tree, repo=None):
         _SIG_CACHE[key] = _signature_index(key)
     idx = _SIG_CACHE[key]
 
+    # names that certainly denote a definition of this repository when used as a plain call: defined or imported at
+    # the top level of this module, and nowhere rebound as a local / parameter
+    top = set()
+    for st in tree.body:
+        if isinstance(st, (ast.FunctionDef, ast.AsyncFunctionDef, ast.ClassDef)):
+            top.add(st.name)
+        elif isinstance(st, ast.ImportFrom) and (st.module or "").startswith("scenic"):
+            top.update(a.asname or a.name for a in st.names)
+    rebound = set()
+    for fn in [n for n in ast.walk(tree) if isinstance(n, (ast.FunctionDef, ast.AsyncFunctionDef, ast.Lambda))]:
+        a_ = fn.args
+        rebound.update(x.arg for x in a_.posonlyargs + a_.args + a_.kwonlyargs)
+        if a_.vararg:
+            rebound.add(a_.vararg.arg)
+        if a_.kwarg:
+            rebound.add(a_.kwarg.arg)
+        if not isinstance(fn, ast.Lambda):
+            for n in ast.walk(fn):
+                if isinstance(n, ast.Name) and isinstance(n.ctx, ast.Store):
+                    rebound.add(n.id)
+                elif isinstance(n, (ast.FunctionDef, ast.AsyncFunctionDef, ast.ClassDef)) and n is not fn:
+                    rebound.add(n.name)
+    safe_names = top - rebound
+
     class T(ast.NodeTransformer):
         def visit_Call(self, node):
             self.generic_visit(node)
             f = node.func
+            if isinstance(f, ast.Name) and f.id not in safe_names:
+                return node
             # only callees that certainly are repository definitions: plain names that are not builtins, and methods
             # called on self / cls
             if isinstance(f, ast.Name) and f.id not in _BUILTINS:
